@@ -1,11 +1,457 @@
 package main
 
-import "time"
+// Property runner: selects the functions and obligations serving a property, discharges them,
+// applies the known-findings file and the committed baseline, writes evidence, prints verdicts.
+
+import (
+	"encoding/json"
+	"fmt"
+	"os"
+	"path/filepath"
+	"sort"
+	"strings"
+	"time"
+
+	"golang.org/x/tools/go/ssa"
+)
 
 type ReplayResult struct {
 	File       string `json:"file"`
 	Reproduced bool   `json:"reproduced"`
 	Output     string `json:"output"`
+	Inputs     map[string]string `json:"inputs,omitempty"`
 }
 
-func runProperty(eng *Engine, o *Options, start time.Time) int { return 0 }
+type KnownFinding struct {
+	ID         string `json:"id"`
+	Property   string `json:"property"`
+	Function   string `json:"function"`
+	Obligation string `json:"obligation"`
+	What       string `json:"what"`
+	Status     string `json:"status"` // open | fixed
+	Commit     string `json:"commit,omitempty"`
+	// Inputs: specification expression over the function's parameters describing the failing
+	// inputs of this finding. The obligation must hold for all other inputs, else a VIOLATION
+	// is reported in addition.
+	Inputs string `json:"inputs,omitempty"`
+}
+
+type knownFile struct {
+	Findings []KnownFinding `json:"findings"`
+	Fixed    []string       `json:"fixed"`
+}
+
+func loadKnown(path string) []KnownFinding {
+	var kf knownFile
+	data, err := os.ReadFile(path)
+	if err != nil {
+		return nil
+	}
+	if err := json.Unmarshal(data, &kf); err != nil {
+		fmt.Fprintln(os.Stderr, "govc: bad known findings file:", err)
+		os.Exit(3)
+	}
+	return kf.Findings
+}
+
+func hasProp(props []string, p string) bool {
+	for _, q := range props {
+		if q == p {
+			return true
+		}
+	}
+	return false
+}
+
+func contractServes(ct *Contract, prop string) bool {
+	for _, cl := range [][]*Clause{ct.Requires, ct.Ensures, ct.Loops, ct.AtCalls} {
+		for _, c := range cl {
+			if hasProp(c.Props, prop) {
+				return true
+			}
+		}
+	}
+	return false
+}
+
+// relevant: does the obligation count for the property?
+func relevant(ob *Obligation, prop string) bool {
+	if len(ob.Props) == 0 {
+		return true // implicit safety, call-site preconditions, frames, covers: supporting obligations
+	}
+	return hasProp(ob.Props, prop)
+}
+
+type evidence struct {
+	PropertyID  string         `json:"property_id"`
+	Tier        string         `json:"tier"`
+	Seed        int            `json:"seed"`
+	Level       string         `json:"level"`
+	Coverage    map[string]any `json:"coverage"`
+	Assumptions []string       `json:"assumptions"`
+	WallS       float64        `json:"wall_s"`
+	Violations  int            `json:"violations"`
+}
+
+func runProperty(eng *Engine, o *Options, start time.Time) int {
+	prop := o.Prop
+	if prop == "" {
+		fmt.Fprintln(os.Stderr, "govc: -prop required")
+		return 3
+	}
+	known := loadKnown(filepath.Join(filepath.Dir(o.Out), "known_findings.json"))
+	// 1. functions
+	var keys []string
+	for _, k := range eng.contracts.Order {
+		ct := eng.contracts.Funcs[k]
+		if ct.Trusted {
+			continue
+		}
+		if contractServes(ct, prop) {
+			keys = append(keys, k)
+		}
+	}
+	sweepKeys := map[string]bool{}
+	if o.Sweep {
+		var all []string
+		for k, fn := range eng.funcs {
+			if fn.Pkg == nil || fn.Pkg.Pkg != eng.home || fn.Synthetic != "" || len(fn.Blocks) == 0 || fn.Name() == "init" {
+				continue
+			}
+			all = append(all, k)
+		}
+		sort.Strings(all)
+		have := map[string]bool{}
+		for _, k := range keys {
+			have[k] = true
+		}
+		for _, k := range all {
+			if !have[k] {
+				keys = append(keys, k)
+				sweepKeys[k] = true
+			}
+		}
+	}
+	var missing []string
+	var results []*FuncResult
+	genStart := time.Now()
+	for _, k := range keys {
+		fn := eng.funcs[k]
+		if fn == nil {
+			missing = append(missing, k)
+			continue
+		}
+		t0 := time.Now()
+		res := safeVerify(eng, fn, eng.contracts.Funcs[k])
+		res.GenS = time.Since(t0).Seconds()
+		// keep only relevant obligations
+		var kept []*Obligation
+		for _, ob := range res.Obls {
+			if sweepKeys[k] && !ob.Implicit && ob.Kind != "cover" {
+				continue
+			}
+			if relevant(ob, prop) {
+				kept = append(kept, ob)
+			}
+		}
+		res.Obls = kept
+		results = append(results, res)
+	}
+	// lemmas
+	for _, lm := range eng.contracts.Lemmas {
+		if hasProp(lm.Props, prop) {
+			results = append(results, eng.verifyLemma(lm))
+		}
+	}
+	genS := time.Since(genStart).Seconds()
+	solveStart := time.Now()
+	solveAll(eng, o, results)
+	solveS := time.Since(solveStart).Seconds()
+
+	// 2. classify
+	baseline := loadBaseline(filepath.Join(filepath.Dir(o.Out), "baseline", prop+".json"))
+	rc := 0
+	var lines []string
+	nObl, nDis, nKnown, nCover := 0, 0, 0, 0
+	byBackend := map[string]int{}
+	solverTime := 0.0
+	var samples []any
+	var specErrs []string
+	var undecided []string
+	violations := 0
+	var funcsUnder []string
+	assumptions := map[string]bool{}
+	trusted := map[string]bool{}
+	notes := map[string]bool{}
+	var dischargedNames []string
+	for _, res := range results {
+		if res.Contract != nil {
+			funcsUnder = append(funcsUnder, res.Key)
+		}
+		specErrs = append(specErrs, res.SpecErrors...)
+		for _, m := range res.Models {
+			trusted["library model: "+m] = true
+		}
+		if res.VC != nil {
+			for a := range res.VC.assume {
+				assumptions[a] = true
+			}
+			for n := range res.VC.notes {
+				notes[n] = true
+			}
+		}
+		for _, ob := range res.Obls {
+			full := res.Key + "/" + ob.Name
+			if ob.Cover {
+				nCover++
+				if ob.Status != "cover-ok" {
+					undecided = append(undecided, full+" (vacuity guard: "+ob.Res.Status+")")
+				}
+				continue
+			}
+			nObl++
+			solverTime += ob.Res.TimeS
+			if ob.Status == "discharged" {
+				nDis++
+				byBackend[ob.Res.Solver]++
+				dischargedNames = append(dischargedNames, full)
+				if len(samples) < 6 {
+					samples = append(samples, map[string]any{"obligation": full, "kind": ob.Kind, "clause": ob.Desc, "result": "unsat", "solver": ob.Res.Solver, "time_s": round3(ob.Res.TimeS), "smt_file": ob.File})
+				}
+				continue
+			}
+			// failed or unknown
+			kf := matchKnown(known, prop, res.Key, ob.Name)
+			if kf != nil {
+				// the obligation must hold for every input outside the recorded ones
+				okOutside := true
+				if kf.Inputs != "" {
+					okOutside = eng.holdsOutside(o, res, ob, kf.Inputs)
+				}
+				if okOutside {
+					nKnown++
+					lines = append(lines, fmt.Sprintf("KNOWN-FINDING: property=%s %s %s/%s %s", prop, kf.ID, res.Key, ob.Name, kf.What))
+					continue
+				}
+			}
+			rp := eng.replay(o, res, ob)
+			ob.Replay = rp
+			rfile := writeReplayFile(o, prop, res, ob, rp)
+			inBase := baseline == nil || baseline[full]
+			switch {
+			case rp != nil && rp.Reproduced:
+				violations++
+				lines = append(lines, fmt.Sprintf("VIOLATION property=%s replay=%s obligation=%s", prop, rfile, full))
+			case inBase:
+				violations++
+				lines = append(lines, fmt.Sprintf("VIOLATION property=%s replay=%s obligation=%s no-failing-input-found", prop, rfile, full))
+			default:
+				undecided = append(undecided, full+" ("+ob.Res.Status+", not in baseline, no replayed input)")
+			}
+		}
+	}
+	sort.Strings(funcsUnder)
+	for _, m := range missing {
+		undecided = append(undecided, "missing="+m)
+	}
+	for _, e := range specErrs {
+		undecided = append(undecided, "spec-error: "+e)
+	}
+	// baseline obligations that no longer exist cannot be decided
+	if baseline != nil {
+		have := map[string]bool{}
+		for _, res := range results {
+			for _, ob := range res.Obls {
+				have[res.Key+"/"+ob.Name] = true
+			}
+		}
+		var gone []string
+		for b := range baseline {
+			if !have[b] {
+				gone = append(gone, b)
+			}
+		}
+		sort.Strings(gone)
+		for _, g := range gone {
+			undecided = append(undecided, "baseline obligation no longer generated: "+g)
+		}
+	}
+	for _, l := range lines {
+		fmt.Println(l)
+	}
+	for _, u := range undecided {
+		fmt.Printf("UNDECIDED property=%s %s\n", prop, u)
+	}
+	if violations > 0 {
+		rc = 1
+	} else if len(undecided) > 0 {
+		rc = 2
+	}
+	if nObl == 0 {
+		fmt.Printf("UNDECIDED property=%s no obligations generated\n", prop)
+		rc = 2
+	}
+	if o.UpdateBaseline && rc == 0 {
+		saveBaseline(filepath.Join(filepath.Dir(o.Out), "baseline", prop+".json"), dischargedNames)
+	}
+	// 3. evidence
+	var asm []string
+	for a := range assumptions {
+		asm = append(asm, a)
+	}
+	sort.Strings(asm)
+	asm = append(asm, standingAssumptions...)
+	var tb []string
+	for t := range trusted {
+		tb = append(tb, t)
+	}
+	sort.Strings(tb)
+	tb = append([]string{"go/packages + go/types + go/ssa (x/tools v0.50.0, NaiveForm)", "govc VC generator (/verif/govc)", "z3 5.1.0, z3 4.8.12, cvc5 1.0 (raced; thorough tier requires agreement)"}, tb...)
+	var nts []string
+	for n := range notes {
+		nts = append(nts, n)
+	}
+	sort.Strings(nts)
+	if len(nts) > 40 {
+		nts = append(nts[:40], fmt.Sprintf("… %d more", len(nts)-40))
+	}
+	ev := evidence{PropertyID: prop, Tier: o.Tier, Seed: o.Seed, Level: "proof", WallS: round3(time.Since(start).Seconds()), Violations: violations, Assumptions: asm}
+	ev.Coverage = map[string]any{
+		"obligations": nObl, "discharged": nDis, "known_findings": nKnown, "vacuity_covers": nCover,
+		"checker_cmd":              fmt.Sprintf("/verif/check %s %s", prop, o.Tier),
+		"trusted_base":             tb,
+		"functions_under_contract": funcsUnder,
+		"functions_checked":        len(results),
+		"by_backend":               byBackend,
+		"solver_time_s":            round3(solverTime),
+		"generation_time_s":        round3(genS),
+		"solve_wall_s":             round3(solveS),
+		"load_time_s":              round3(eng.loadTime),
+		"samples":                  samples,
+		"undecided":                undecided,
+		"not_modelled":             nts,
+		"timeout_s":                o.Timeout,
+		"solver_agreement_required": o.Agree,
+	}
+	if extra := extraEvidence[prop]; extra != nil {
+		for k, v := range extra {
+			ev.Coverage[k] = v
+		}
+	}
+	edir := filepath.Join(filepath.Dir(o.Out), "evidence")
+	_ = os.MkdirAll(edir, 0o755)
+	data, _ := json.MarshalIndent(ev, "", " ")
+	_ = os.WriteFile(filepath.Join(edir, prop+".json"), data, 0o644)
+	fmt.Printf("govc: property %s: %d obligations, %d discharged, %d known findings, %d violations, %d undecided; %d functions; %.1fs\n",
+		prop, nObl, nDis, nKnown, violations, len(undecided), len(results), time.Since(start).Seconds())
+	return rc
+}
+
+var extraEvidence = map[string]map[string]any{}
+
+var standingAssumptions = []string{
+	"sequential semantics: goroutine scheduling and memory-model effects are not modelled; sync.Mutex operations are no-ops",
+	"bodies of functions outside connectrpc.com/vanguard are replaced by the assumed library models listed in trusted_base, or havocked",
+	"distinct allocation sites yield distinct objects; objects allocated by the function under verification are distinct from all pre-existing objects",
+	"callbacks out of the package (http.Handler.ServeHTTP, user codecs/compressors) may modify any heap location (modelled as havoc) but not local variables",
+	"strings are modelled as uninterpreted values with length and byte-at functions; formatting functions are uninterpreted",
+}
+
+func round3(f float64) float64 { return float64(int(f*1000+0.5)) / 1000 }
+
+func safeVerify(eng *Engine, fn *ssa.Function, ct *Contract) (res *FuncResult) {
+	defer func() {
+		if r := recover(); r != nil {
+			res = &FuncResult{Key: fnKey(fn, eng.home), Fn: fn, Contract: ct, SpecErrors: []string{fmt.Sprintf("generator panic in %s: %v", fn.Name(), r)}}
+		}
+	}()
+	return eng.verifyFunction(fn, ct, false)
+}
+
+func matchKnown(known []KnownFinding, prop, fn, ob string) *KnownFinding {
+	for i := range known {
+		k := &known[i]
+		if k.Status == "fixed" {
+			continue
+		}
+		if k.Function == fn && k.Obligation == ob && (k.Property == prop || strings.Contains(k.Property, prop)) {
+			return k
+		}
+	}
+	return nil
+}
+
+func loadBaseline(path string) map[string]bool {
+	data, err := os.ReadFile(path)
+	if err != nil {
+		return nil
+	}
+	var names []string
+	if json.Unmarshal(data, &names) != nil {
+		return nil
+	}
+	m := map[string]bool{}
+	for _, n := range names {
+		m[n] = true
+	}
+	return m
+}
+
+func saveBaseline(path string, names []string) {
+	sort.Strings(names)
+	_ = os.MkdirAll(filepath.Dir(path), 0o755)
+	data, _ := json.MarshalIndent(names, "", " ")
+	_ = os.WriteFile(path, data, 0o644)
+}
+
+func writeReplayFile(o *Options, prop string, res *FuncResult, ob *Obligation, rp *ReplayResult) string {
+	dir := filepath.Join(o.Out, "replay")
+	_ = os.MkdirAll(dir, 0o755)
+	path := filepath.Join(dir, prop+"-"+sanitize(res.Key, 40)+"-"+sanitize(ob.Name, 50)+".json")
+	model := map[string]string{}
+	for _, in := range ob.Inputs {
+		if v, ok := ob.Res.Model[in.Term.S]; ok {
+			model[in.Name] = v
+		}
+	}
+	rec := map[string]any{
+		"property": prop, "function": res.Key, "obligation": ob.Name, "kind": ob.Kind, "clause": ob.Desc,
+		"position": ob.Pos.String(), "solver_status": ob.Res.Status, "solver": ob.Res.Solver, "per_solver": ob.Res.PerTool,
+		"solver_output": trunc(ob.Res.Output, 4000), "model": model, "smt_file": ob.File, "replay": rp,
+	}
+	data, _ := json.MarshalIndent(rec, "", " ")
+	_ = os.WriteFile(path, data, 0o644)
+	return path
+}
+
+// holdsOutside re-checks a failing obligation under the assumption that the inputs are not the
+// ones recorded for a known finding.
+func (e *Engine) holdsOutside(o *Options, res *FuncResult, ob *Obligation, inputs string) bool {
+	if res.Fn == nil {
+		return false
+	}
+	se, err := parseSpec(inputs)
+	if err != nil {
+		fmt.Fprintln(os.Stderr, "govc: known finding inputs:", err)
+		return false
+	}
+	// re-generate the function's VC with the extra assumption not(inputs)
+	ct := res.Contract
+	var ct2 Contract
+	if ct != nil {
+		ct2 = *ct
+	} else {
+		ct2 = Contract{Key: res.Key, Opts: map[string]string{}}
+	}
+	neg := &SExpr{Kind: "implies", L: se, R: &SExpr{Kind: "go", Go: falseIdent, Src: "false"}, Src: "!(" + inputs + ")"}
+	ct2.Requires = append(append([]*Clause{}, ct2.Requires...), &Clause{Kind: "requires", Expr: neg, Src: neg.Src, Index: 99})
+	r2 := safeVerify(e, res.Fn, &ct2)
+	for _, ob2 := range r2.Obls {
+		if ob2.Name == ob.Name {
+			r2.Obls = []*Obligation{ob2}
+			solveAll(e, o, []*FuncResult{r2})
+			return ob2.Status == "discharged"
+		}
+	}
+	return false
+}
